@@ -273,12 +273,14 @@ func gangHistory(c *Ctx, d *coreDrv) {
 		case p < 86:
 			emit(map[string]interface{}{"op": "state-timeout", "app": g.id})
 		case p < 89:
-			// a node disappears (possibly while a replacement is in flight)
+			// a node disappears (possibly while a replacement is in flight), or is drained / put back
 			nodes := sortedKeys(s.nodes)
-			if len(nodes) > 1 {
+			if len(nodes) > 1 && c.chance(0.5) {
 				id := s.pickFrom(nodes)
 				emit(map[string]interface{}{"op": "node", "id": id, "action": "decommission"})
 				delete(s.nodes, id)
+			} else if len(nodes) > 0 {
+				emit(map[string]interface{}{"op": "node", "id": s.pickFrom(nodes), "action": []string{"drain", "drain", "undrain"}[c.pick(3)]})
 			}
 		case p < 92:
 			// a late placeholder ask (possibly while the application is Completing)
